@@ -126,6 +126,29 @@ var coreGroups = []struct {
 		"FreeList.newNode", "FreeList.freeNode", ".NewFreeList", ".New", ".NewWithFreeList", "BTree.Clear", "node.reset"}},
 }
 
+// funcNames lists the functions of a file as `Recv.Name` (`.Name` for plain functions).
+func funcNames(f *gofacts.File) []string {
+	var out []string
+	for _, d := range f.AST.Decls {
+		fd, ok := d.(*ast.FuncDecl)
+		if !ok {
+			continue
+		}
+		recv := ""
+		if fd.Recv != nil && len(fd.Recv.List) > 0 {
+			t := fd.Recv.List[0].Type
+			if st, ok := t.(*ast.StarExpr); ok {
+				t = st.X
+			}
+			if id, ok := t.(*ast.Ident); ok {
+				recv = id.Name
+			}
+		}
+		out = append(out, recv+"."+fd.Name.Name)
+	}
+	return out
+}
+
 func canonHash(f *gofacts.File, qual string) string {
 	i := strings.Index(qual, ".")
 	fd := f.Func(qual[:i], qual[i+1:])
@@ -253,12 +276,65 @@ func extract(repo, leanDir string) {
 	if !walkBody {
 		deviating = append(deviating, "bodyWrapper:BTree.iterWalk")
 	}
+	// closure: `node.print` pinned too, and no function of the three anchored files outside the pinned sets
+	bodyClosed := true
+	known := map[string]bool{"Int.Less": true, "node.print": true, "BTree.AscendGreater": true, "BTree.DescendLess": true,
+		"BTree.Ascend": true, "BTree.AscendGreaterOrEqual": true, "BTree.AscendLessThan": true, "BTree.AscendRange": true,
+		"BTree.Descend": true, "BTree.DescendGreaterThan": true, "BTree.DescendLessOrEqual": true, "BTree.DescendRange": true}
+	for fn := range coreHash {
+		known[fn] = true
+	}
+	if canonHash(bt, "node.print") != "b4da267c32a3" {
+		bodyClosed = false
+		deviating = append(deviating, "bodyClosed:node.print")
+	}
+	for _, file := range []*gofacts.File{bt, ext} {
+		for _, q := range funcNames(file) {
+			if !known[q] {
+				bodyClosed = false
+				deviating = append(deviating, "bodyClosed:unpinned:"+q)
+			}
+		}
+	}
+	wknown := map[string]bool{"BTree.iterWalk": true}
+	for fn := range wrapperHash {
+		wknown[fn] = true
+	}
+	for _, q := range funcNames(wr) {
+		if !wknown[q] {
+			bodyClosed = false
+			deviating = append(deviating, "bodyClosed:unpinned:tree."+q)
+		}
+	}
+	// EVERY method of tree.BTree (known or not) takes the lock first, or is a one-line call of iterWalk
+	wrapperAllLocked := true
+	for _, d := range wr.AST.Decls {
+		fd, ok := d.(*ast.FuncDecl)
+		if !ok || fd.Recv == nil || fd.Body == nil {
+			continue
+		}
+		body := wr.Src(fd.Body)
+		okShape := strings.HasPrefix(body, "{ b.rw.Lock() defer b.rw.Unlock() ") || strings.HasPrefix(body, "{ b.rw.RLock() defer b.rw.RUnlock() ") ||
+			strings.HasPrefix(body, "{ return b.iterWalk(k, b.t.") || (fd.Name.Name == "iterWalk" && walkBody)
+		if !okShape {
+			wrapperAllLocked = false
+			deviating = append(deviating, "wrapperAllLocked:"+fd.Name.Name)
+		}
+	}
+	// btree.Int.Less: the comparison is a parameter of the model (a kernel on 64-bit integers)
+	intLess := "unknown"
+	switch bt.Canon(bt.Func("Int", "Less")) {
+	case "func ( v1 Int ) Less ( v2 Item ) bool { return v1 < v2 . ( Int ) ; } ;":
+		intLess = "direct"
+	case "func ( v1 Int ) Less ( v2 Item ) bool { return v1 - v2 . ( Int ) < 0 ; } ;":
+		intLess = "subtract"
+	}
 	sort.Strings(deviating)
 
 	facts := []bool{maxItemsExpr, minItemsExpr, splitHalf, splitGuards, growGuard, stealGuards, otherScans, rootNilGuard,
 		wrapperScanMap, wrapperWriteLocks, wrapperReadLocks, updateBody, upsertBody, walkBody, cloneFreshCows, cowGuards}
 	facts = append(facts, groupOK...)
-	facts = append(facts, bodyWrapper)
+	facts = append(facts, bodyWrapper, bodyClosed, wrapperAllLocked)
 	var fs []string
 	for _, b := range facts {
 		fs = append(fs, gofacts.LeanBool(b))
@@ -268,14 +344,14 @@ set_option linter.unusedVariables false
 /-! GENERATED by `+"`c03 extract`"+` from ds/tree/btree/btree.go, ds/tree/btree/btree_ext.go, ds/tree/btree.go — do not edit. -/
 namespace Nv.Gen.C03
 open Nv.C03
-def cfg : Cfg := ⟨%s, %s, %s, %s, .%s, %d, .%s⟩
+def cfg : Cfg := ⟨%s, %s, %s, %s, .%s, %d, .%s, .%s⟩
 def facts : Facts := ⟨%s⟩
 end Nv.Gen.C03
-`, ascGe.lean(), ascGt.lean(), descLe.lean(), descLt.lean(), limitCmp, wrapperDegree, prealloc, strings.Join(fs, ", "))
+`, ascGe.lean(), ascGt.lean(), descLe.lean(), descLt.lean(), limitCmp, wrapperDegree, prealloc, intLess, strings.Join(fs, ", "))
 	if err := gofacts.WriteIfChanged(filepath.Join(leanDir, "Nv/Gen/C03.lean"), out); err != nil {
 		fmt.Fprintln(os.Stderr, err)
 		os.Exit(2)
 	}
-	fmt.Printf("extract C03: ascGe=%v ascGt=%v descLe=%v descLt=%v limitCmp=%s wrapperDegree=%d prealloc=%s facts=%v deviating=%v\n",
-		ascGe, ascGt, descLe, descLt, limitCmp, wrapperDegree, prealloc, facts, deviating)
+	fmt.Printf("extract C03: ascGe=%v ascGt=%v descLe=%v descLt=%v limitCmp=%s wrapperDegree=%d prealloc=%s intLess=%s facts=%v deviating=%v\n",
+		ascGe, ascGt, descLe, descLt, limitCmp, wrapperDegree, prealloc, intLess, facts, deviating)
 }
